@@ -374,6 +374,11 @@ func isPrintRef(s string) bool {
 }
 
 func c12Run(c *Ctx) {
+	if c.Sub("api?").Intn(16) == 3 {
+		// options registered through the public AddOption API: written and read back
+		apiMiniRoundTrip(c)
+		return
+	}
 	r := c.R
 	if c.K%53 == 52 {
 		c12HardKey(c)
@@ -541,7 +546,7 @@ func init() {
 		Run:              c12Run,
 		MinNontrivial:    300,
 		DeathIsViolation: true,
-		Rule: "case k: write options = k mod 8 (all combinations of IncludeDefaults, CommentDefaults, IncludeComments); a random declaration (nested groups, commands to depth 3 by tag/AddCommand/Commander, ini-name, no-ini, hidden marks, default tags, integer bases) over 36 option types; parser A applies defaults, then 3 of 4 options receive a hostile current value (strings from a 50-entry hostile table incl. surrounding blanks, quotes, control and non-ASCII characters, invalid UTF-8, 4 kB-boundary and 70 kB lengths; integers at the limits; floats incl. +-Inf, NaN, -0, sub-normals, random bit patterns; Durations incl. min/max; slices incl. empty-string elements; maps with keys in the property's domain and unrestricted values; nil and set pointers; Marshaler types); Write -> Parse into a fresh parser B -> ParseArgs(nil). " +
+		Rule: "1 case in 16: two identical parsers built through the API only (1-3 options registered with AddOption on the parser / a namespaced group): values set by a parse, written with one of the 8 IniOptions, read into the twin, all variables compared. case k: write options = k mod 8 (all combinations of IncludeDefaults, CommentDefaults, IncludeComments); a random declaration (nested groups, commands to depth 3 by tag/AddCommand/Commander, ini-name, no-ini, hidden marks, default tags, integer bases) over 36 option types; parser A applies defaults, then 3 of 4 options receive a hostile current value (strings from a 50-entry hostile table incl. surrounding blanks, quotes, control and non-ASCII characters, invalid UTF-8, 4 kB-boundary and 70 kB lengths; integers at the limits; floats incl. +-Inf, NaN, -0, sub-normals, random bit patterns; Durations incl. min/max; slices incl. empty-string elements; maps with keys in the property's domain and unrestricted values; nil and set pointers; Marshaler types); Write -> Parse into a fresh parser B -> ParseArgs(nil). " +
 			"Oracle (metamorphic): no panic, no read error, and every option that is not legitimately skipped (hidden, no-ini, callbacks, hidden groups/commands) has the same canonical value in B as in A. distinct = (write options, #commands, #options compared, size class).",
 		Assumptions: []string{"an empty slice/map on an option with non-empty default tags is not reachable by parsing and is not generated", "NaN compares as NaN", "Marshaler implemented with pointer receiver is only used through pointer fields"},
 		Technique:   "runtime metamorphic monitor: write -> read round trip on fresh parsers with value snapshots compared; hostile value workload",
